@@ -87,3 +87,24 @@ def count (e : Ev) (s : Skel) : Nat := (flat s).count e
 
 end Skel
 end InvProxy
+
+namespace InvProxy.Skel
+
+/-- split a flat event list into the bodies of its (non-nested) selects and the events outside any select -/
+def selSplit : List Ev → (inSel : Option (List Ev)) → (segs : List (List Ev)) → (outside : List Ev) → List (List Ev) × List Ev
+  | [], none, segs, out => (segs.reverse, out.reverse)
+  | [], some cur, segs, out => ((cur.reverse :: segs).reverse, out.reverse)
+  | .selStart :: t, none, segs, out => selSplit t (some []) segs out
+  | .selEnd :: t, some cur, segs, out => selSplit t none (cur.reverse :: segs) out
+  | e :: t, some cur, segs, out => selSplit t (some (e :: cur)) segs out
+  | e :: t, none, segs, out => selSplit t none segs (e :: out)
+
+/-- every send on `c` is a case of a `select` that also waits for `done`, and is not under its `default` -/
+def sendGuardedBy (c done : String) (s : Skel) : Bool :=
+  let (segs, out) := selSplit (flat s) none [] []
+  !out.contains (.send c) &&
+  segs.all (fun seg =>
+    !seg.contains (.send c) ||
+    (seg.contains (.recv done) && !((seg.takeWhile (· != .send c)).contains .dflt)))
+
+end InvProxy.Skel
